@@ -17,6 +17,7 @@ from sa.pyfront import Program
 from sa.symex import Interp
 
 RULES = {
+    "R-C13-f": "each sub-cube writes exactly its own block: inside a task every region is addressed through region[tuple(its own coordinates)], and the unsliced region is used only when there is a single task (imported from the C16 analysis)",
     "R-C13-a": "result shape = <extra axes of each dimension, in dims order then axis order> ++ <one category extent per dimension> ++ <fact columns>, for the attributes that flow into returned arrays",
     "R-C13-b": "slice coordinates are produced in axis order (slices1d peels the last axis and PREPENDS its coordinate; xcube.product enumerates range(extent) per extra axis in order)",
     "R-C13-c": "inside a task the data slice and its coordinates come from the same product element, position by position",
@@ -392,6 +393,16 @@ def main(tier):
     region_rules(prog, rep)
     slices_rules(prog, rep)
     task_rules(prog, rep)
+    import c16
+    sub = core.Report("C16", level="other", rules=c16.RULES, tier=tier)
+    for module, cls in (("ccubes", "ccube"), ("xcubes", "xcube")):
+        c16.analyse_one(prog, module, cls, sub)
+    k = 0
+    for o in sub.obls:
+        if o.rule in ("R-C16-a", "R-C16-b"):
+            k += 1
+            rep.add("R-C13-f", o.where, "[%s] %s" % (o.rule, o.construct), o.status, o.detail, True, o.witness)
+    rep.floor("R-C13-f", 4, k)
     return rep.finish()
 
 
